@@ -149,4 +149,46 @@ mod verif_replay_proto {
             assert!(!failed || w.has_error(), "write call {} failed but has_error() is false", fail_at);
         }
     }
+
+    /// C05 (bounded): every scalar data value is read back as written (value codec: write_data / read_data), over the
+    /// boundary values of the integer classes for source ids and numbers
+    #[test]
+    fn verif_replay_proto_data_value_roundtrip() {
+        use crate::datamodel::{Data, SourceCode};
+        use crate::serializer::protocol_reader::ProtocolReader;
+        let mut values: Vec<Data> = vec![
+            Data::Null(), Data::None(), Data::Boolean(true), Data::Boolean(false),
+            Data::String(String::new()), Data::String("héllo wörld".to_string()), Data::String("x".repeat(300)),
+            Data::Error("some error".to_string()),
+            Data::Double(0.0), Data::Double(-1.5), Data::Double(1e300), Data::Double(1.0 / 3.0),
+        ];
+        for v in [0i64, 1, -1, 15, 16, 255, 256, 4095, 4096, i64::MAX, i64::MIN, 1 << 40] {
+            values.push(Data::Integer(v));
+        }
+        for id in [0usize, 1, 15, 16, 255, 256, 257, 4095, 4096, 65535, 65536, 1 << 20, (1 << 28) + 3, u32::MAX as usize] {
+            values.push(Data::Source(SourceCode::new("flag == 1", id)));
+        }
+        for v in values.iter() {
+            let mut w = DefaultProtocolWriter::new(Vec::new());
+            w.write_data(v);
+            w.write_u8(7); // a following token must still be found where it was written
+            assert!(!w.has_error(), "writing {:?} flagged an error", v);
+            let buf = w.get_writer().clone();
+            let mut r = DefaultProtocolReader::new(&buf[..]);
+            let back = r.read_data();
+            let next = r.read_u8();
+            assert!(!r.has_error(), "reading {:?} back flagged an error", v);
+            let same = match (v, &back) {
+                (Data::Source(a), Data::Source(b)) => a.source == b.source && a.source_id == b.source_id,
+                (Data::Null(), Data::Null()) | (Data::None(), Data::None()) => true,
+                (Data::Double(a), Data::Double(b)) => a == b,
+                (Data::Integer(a), Data::Integer(b)) => a == b,
+                (Data::String(a), Data::String(b)) | (Data::Error(a), Data::Error(b)) => a == b,
+                (Data::Boolean(a), Data::Boolean(b)) => a == b,
+                _ => false,
+            };
+            assert!(same, "data value {:?} was read back as {:?}", v, back);
+            assert_eq!(next, 7, "the token after {:?} was not found", v);
+        }
+    }
 }
